@@ -198,7 +198,7 @@ def l1_chunk(args):
 
 
 # ------------------------------------------------------------------------------------------------ L2 cross-file recount
-def recount(out, prefix, gene_strategy, transcript_strategy, mono_isoforms):
+def recount(out, prefix, gene_strategy, transcript_strategy, mono_isoforms, n_unmapped=None):
     """returns list of (key, message) inconsistencies between the count tables and the per-read files"""
     from vlib import run
     errs = []
@@ -265,6 +265,8 @@ def recount(out, prefix, gene_strategy, transcript_strategy, mono_isoforms):
             errs.append(("stat-ambiguous", "%s __ambiguous %s, read_assignments.tsv has %d such reads" % (level, stats.get("__ambiguous"), n_amb)))
         if stats.get("__no_feature") != n_nof:
             errs.append(("stat-no-feature", "%s __no_feature %s, read_assignments.tsv has %d such reads" % (level, stats.get("__no_feature"), n_nof)))
+        if n_unmapped is not None and stats.get("__not_aligned") != n_unmapped:
+            errs.append(("stat-not-aligned", "%s __not_aligned %s, the input has %d unmapped reads" % (level, stats.get("__not_aligned"), n_unmapped)))
         errs += tpm_errors(out, prefix, level)
     # transcript models
     p = run.find(out, prefix, ".transcript_model_reads.tsv")
@@ -365,6 +367,45 @@ def l2_world(variant):
     W.add_sites_for_blocks(w, "chr1", W.exons(1000, [0, 1, 3, 4]), "+")
     W.dedup_sites(w)
     return w
+
+
+def l2m_case(args):
+    """two experiments in one invocation (YAML): the reads of the pipeline world split in two, with 3 and 1 unmapped reads; every table
+       of each experiment is recounted from that experiment's own files and input"""
+    gs, ts, order, scratch = args
+    from vlib import syn, run
+    w = l2_world(1)
+    d = os.path.join(scratch, "c02_l2m_%s_%s_%d" % (gs, ts, order))
+    shutil.rmtree(d, ignore_errors=True)
+    paths = syn.materialise(dict(w, reads=None), d)
+    seqs = syn.genome_sequences(w)
+    mapped = [r for r in w["reads"] if not r.get("unmapped")]
+    names = sorted(set(r["name"] for r in mapped))
+    first = set(names[0::2])
+    exps = {"E1": [r for r in mapped if r["name"] in first] + [{"name": "u%d" % i, "unmapped": True} for i in range(3)],
+            "E2": [r for r in mapped if r["name"] not in first] + [{"name": "u9", "unmapped": True}]}
+    import yaml
+    items = [{"data format": "bam"}]
+    for x in (("E1", "E2") if order == 0 else ("E2", "E1")):
+        syn.write_bam(w, os.path.join(d, x + ".bam"), reads=exps[x], seqs=seqs)
+        items.append({"name": x, "long read files": [x + ".bam"]})
+    with open(os.path.join(d, "in.yaml"), "w") as f:
+        yaml.safe_dump(items, f)
+    out = os.path.join(d, "out")
+    rc = run.run_isoquant(["--output", out, "--reference", paths["ref"], "--yaml", os.path.join(d, "in.yaml"), "--data_type", "nanopore",
+                           "--prefix", "OUT", "--threads", "1", "--genedb", paths["gtf"], "--complete_genedb",
+                           "--gene_quantification", gs, "--transcript_quantification", ts], paths["home"], os.path.join(d, "o.txt"))
+    errs = []
+    if rc != 0:
+        errs.append(("run-failed", "exit %d: %s" % (rc, open(os.path.join(d, "o.txt")).read()[-300:])))
+    else:
+        for x, n_unm in (("E1", 3), ("E2", 1)):
+            try:
+                errs += [(k, "experiment %s: %s" % (x, m)) for k, m in recount(out, x, gs, ts, {"T6", "_TU1"}, n_unmapped=n_unm)]
+            except Exception as e:  # noqa
+                errs.append(("recount-crashed", "experiment %s: %r" % (x, e)))
+    shutil.rmtree(d, ignore_errors=True)
+    return (gs, ts, order), errs
 
 
 def l2_case(args):
@@ -484,6 +525,12 @@ def run(ctx):
         for k, msg in errs:
             ctx.violation("l2:%s" % k, "pipeline variant %s gene=%s transcript=%s norm=%s %s: %s" % (key + (msg,)), {"case": list(key[:4])})
     ctx.note("L2 pipeline runs: %d; assignment types seen in read_assignments: %s" % (len(jobs), sorted(seen_types)))
+    jm = [(g_, g_, o_, ctx.scratch) for g_ in (("unique_only", "all") if quick else STRATEGIES) for o_ in (0, 1)]
+    for key, errs in core.pmap(l2m_case, jm):
+        for k, msg in errs:
+            ctx.violation("l2m:%s" % k, "two experiments, gene=%s transcript=%s order %d: %s" % (key + (msg,)), {"l2m": list(key)})
+    ctx.note("two-experiment runs: %d" % len(jm))
+    jobs = jobs + jm
     j3 = l3_jobs(ctx)
     for key, errs in core.pmap(l3_case, j3, chunksize=2):
         for k, msg in errs:
@@ -507,6 +554,9 @@ def _tup(x):
 
 
 def replay(ctx, case):
+    if "l2m" in case:
+        key, errs = l2m_case(tuple(case["l2m"]) + (ctx.scratch,))
+        return errs[0][1] if errs else None
     if "l3" in case:
         kind, param, gs, ts = case["l3"]
         key, errs = l3_case((kind, _tup(param), gs, ts, ctx.scratch))
